@@ -99,3 +99,14 @@ Proof.
     rewrite IH; [reflexivity| |intros x Hx; apply Hpos; right; exact Hx].
     rewrite rlen_advance by lia. lia.
 Qed.
+
+Lemma read_layout_shrinks : forall L r0 vs r1, read_layout L r0 = Ok (vs, r1) -> rlen r1 <= rlen r0.
+Proof.
+  induction L as [|[nm w] L IH]; intros r0 vs r1 H; cbn [read_layout] in H; [inversion H; lia|].
+  unfold uintN in H. destruct (rlen r0 <? w) eqn:E1; cbn [bind] in H; [discriminate|]. cbn [fst snd] in H.
+  destruct (read_layout L (advance w r0)) as [[vs' r']| | |] eqn:E2; cbn [bind] in H; try discriminate.
+  inversion H; subst. apply IH in E2. cbn [snd].
+  unfold rlen, advance in *; cbn [data] in *. pose proof (len_nonneg (data r0)).
+  unfold len in *. rewrite skipn_length in E2. lia.
+Qed.
+
